@@ -933,3 +933,52 @@ def _explicit_event_stack(lp: Loop, self_t: Term) -> Optional[str]:
 
 
 RULES = {'S1': S1, 'S2': S2, 'S3': S3, 'S4': S4, 'S5': S5, 'S6': S6, 'S7': S7, 'S8': S8}
+
+
+# ------------------------------------------------------------- own-field check
+def S9(ctx: Ctx) -> RuleResult:
+    r = RuleResult('S9', 'own-field check: _some_field_refs searches EVERY reference group (no early abort of the outer search), accepts exactly a direct field of the current message, and raises HplSanityError after the search')
+    c = ctx.model.cls('HplPredicateExpression', 'S9')
+    fi = c.methods.get('_some_field_refs')
+    if fi is None:
+        raise AnalysisError('S9', '_some_field_refs not found')
+    self_t = Sym('self', c.name)
+    table = Sym('table')
+    outs = ctx.ev.run(fi, {'self': self_t, 'table': table})
+    rets = [o for o in outs if o.kind in ('return', 'fall')]
+    raises = [o for o in outs if o.kind == 'raise']
+    if not raises or not all('HplSanityError' in repr(o.value) for o in raises):
+        r.fail('_some_field_refs:raise', 'does not raise HplSanityError when no own field is referenced', fi.where)
+    else:
+        unconditional = any(not [g for g, p in o.guards if 'iterating' not in repr(g)] for o in raises)
+        (r.ok('HplSanityError after the search') if unconditional else r.fail('_some_field_refs:raise-guard', f'the error is raised under extra conditions: {[guards_repr(o.guards)[:60] for o in raises]}', fi.where))
+    outer = None
+    for o in outs:
+        for e in o.effects:
+            if isinstance(e, Loop) and isinstance(e.iter, Call) and call_name(e.iter) in ('values', 'items') and call_recv(e.iter) == table:
+                outer = e
+    if outer is None:
+        r.fail('_some_field_refs:groups', 'no loop over all reference groups of the table', fi.where)
+        return r
+    for pg, flow, binds, effs in outer.paths:
+        if flow == 'break':
+            r.fail('_some_field_refs:abort', f'the search over reference groups is aborted (break) under [{guards_repr(norm_guards(pg))[:100]}]: a predicate whose first reference is not an own field is rejected although a later one is', fi.where)
+    for rg, exc in outer.raises:
+        r.fail('_some_field_refs:abort', 'an error is raised inside the search over groups', fi.where)
+    ok = False
+    for o in rets:
+        gs = norm_guards(o.guards)
+        need = {'is_accessor': True, 'is_indexed': False, 'is_value': True, 'is_this_msg': True}
+        got = {}
+        for t, pol in gs:
+            if isinstance(t, Attr) and t.name in need:
+                got[t.name] = pol
+        if all(got.get(k) == v for k, v in need.items()):
+            ok = True
+        elif o.kind == 'return' or (o.kind == 'fall' and any('iterating' in repr(g) for g, _ in o.guards)):
+            r.fail('_some_field_refs:accept', f'accepts under [{guards_repr(gs)[:120]}]: not exactly "accessor, not indexed, object is the current message"', fi.where)
+    (r.ok('accepts exactly a direct field of the current message') if ok else r.fail('_some_field_refs:no-accept', 'no accepting path for a direct field of the current message', fi.where))
+    return r
+
+
+RULES['S9'] = S9
